@@ -427,12 +427,12 @@ fn build_type(
                     }
                 } else {
                     quote! {
-                        impl std::convert::AsRef<#type_> for #name_ident {
+                        impl ::std::convert::AsRef<#type_> for #name_ident {
                             fn as_ref(&self) -> & #type_ {
                                 &self #(. #field_path)*
                             }
                         }
-                        impl std::convert::AsMut<#type_> for #name_ident {
+                        impl ::std::convert::AsMut<#type_> for #name_ident {
                             fn as_mut(&mut self) -> &mut #type_ {
                                 &mut self #(. #field_path)*
                             }
@@ -442,12 +442,12 @@ fn build_type(
             })
             // Inject conversions from T to T to make it easier to work with traits that rely on AsRef/AsMut
             .chain(std::iter::once(quote! {
-                impl std::convert::AsRef<#name_ident> for #name_ident {
+                impl ::std::convert::AsRef<#name_ident> for #name_ident {
                     fn as_ref(&self) -> & #name_ident {
                         self
                     }
                 }
-                impl std::convert::AsMut<#name_ident> for #name_ident {
+                impl ::std::convert::AsMut<#name_ident> for #name_ident {
                     fn as_mut(&mut self) -> &mut #name_ident {
                         self
                     }
@@ -726,7 +726,7 @@ fn build_function(
         FunctionBody::Vftable { function_name } => {
             let function_to_call_name = str_to_ident(function_name);
             quote! {
-                let #callee = std::ptr::addr_of!((*self.vftable()).#function_to_call_name).read();
+                let #callee = ::std::ptr::addr_of!((*self.vftable()).#function_to_call_name).read();
                 #callee(#(#call_arguments),*)
             }
         }
